@@ -523,3 +523,33 @@ def register_stores(ctx):
     first = next((n for n in u.node.body if isinstance(n, ast.If)), None)
     ctx.ob(isinstance(first, ast.If) and norm(first.test) == 'not isinstance(%s, type)' % ttype, u, 'only types can be registered')
     ctx.floor(8)
+
+
+@rule('C13.12')
+def tree_insertion_order_is_deterministic(ctx):
+    """the type tree is order-sensitive (siblings are searched in insertion order, first
+    isinstance match wins), so every loop that inserts types into it must run over a sequence
+    with a defined order -- a set of classes iterates in address order, which differs from run to
+    run and decides e.g. whether a dict subclass with a __dict__ gets the item or the attribute
+    handler of an op declared through register_op"""
+    p = ctx.program
+    c = ctx.cls('core.TargetRegistry')
+    n = 0
+    for name, u in sorted(c.methods.items()):
+        cfg = ctx.cfg(u)
+        for lp in [x for x in u.own_nodes() if isinstance(x, ast.For)]:
+            inserts = [k for k in ast.walk(lp) if isinstance(k, ast.Call) and isinstance(k.func, ast.Attribute)
+                       and k.func.attr == '_register_fuzzy_type']
+            if not inserts:
+                continue
+            n += 1
+            it = deref(cfg, cfg.node_of(lp), lp.iter)
+            unordered = isinstance(it, (ast.Set, ast.SetComp)) or (
+                isinstance(it, ast.Call) and is_name(it.func) and it.func.id in ('set', 'frozenset')) or (
+                isinstance(it, ast.BinOp) and isinstance(it.op, (ast.Sub, ast.BitAnd, ast.BitOr))
+                and any(isinstance(x, ast.Call) and is_name(x.func, 'set') for x in (it.left, it.right)))
+            ctx.ob(not unordered, u, 'types are inserted into the tree in a defined order: for %s in %s' % (src(lp.target), norm(lp.iter)),
+                   '' if not unordered else '%s is a set: sibling order in the type tree (and with it the handler chosen for '
+                   'objects matching two sibling types) depends on object addresses' % norm(it)[:70], node=lp)
+    ctx.require(n >= 2, 'TargetRegistry: tree-inserting loops not found (%d)' % n)
+    ctx.floor(2)
